@@ -406,9 +406,19 @@ Section Wrappers.
   Variable np_item : arr -> arr.                         (* s.item() *)
   Variable dtype_to_str : arr -> res nformat.            (* dtype_to_str(r.dtype): ValueError off the 11 dtypes *)
   Variable np_cast : nformat -> arr -> res arr.          (* what DataWriter.write(…, dtype=nformat) stores *)
+  Variable np_empty : nformat -> arr.                    (* np.zeros(0, dtype=nformat) *)
 
-  Record fieldobj := mkfield { fo_cls : cls; fo_nformat : nformat; fo_data : arr }.
+  (* fo_data = None: nothing has been written yet (MemoryFieldArray._dataset is None / an HDF5 dataset
+     created by the field constructor and never extended) *)
+  Record fieldobj := mkfield { fo_cls : cls; fo_nformat : nformat; fo_data : option arr }.
   Definition heap := list fieldobj.
+
+  (* field.data[:]  — MemoryFieldArray.__getitem__ (lines 383-392, after fix F-C13b):
+       if self._dataset is None: return np.zeros(0, dtype=self._dtype)
+       return self._dataset[item]
+     and an HDF5 dataset read, which for a never-written field is the empty array of its dtype *)
+  Definition field_data (fo:fieldobj) : arr :=
+    match fo_data fo with Some a => a | None => np_empty (fo_nformat fo) end.
 
   Definition kind_of (h:heap) (v:value arr) : res kind :=
     match v with
@@ -422,7 +432,7 @@ Section Wrappers.
   (* `x.data[:] if isinstance(x, Field) else x` *)
   Definition data_of (h:heap) (v:value arr) : res arr :=
     match v with
-    | VField id => match nth_error h id with Some fo => Ok (fo_data fo) | None => Raise E_Other end
+    | VField id => match nth_error h id with Some fo => Ok (field_data fo) | None => Raise E_Other end
     | VNd a | VNpScalar a | VPyScalar a => Ok a
     | _ => Raise E_Other
     end.
@@ -430,7 +440,7 @@ Section Wrappers.
   (* f = NumericMemField(session, dtype_to_str(r.dtype)); f.data.write(r); return f *)
   Definition new_mem_field (h:heap) (r:arr) : res (heap * value arr) :=
     do nf <- dtype_to_str r;
-    Ok (h ++ [mkfield NumericMem nf r], VField (length h)).
+    Ok (h ++ [mkfield NumericMem nf (Some r)], VField (length h)).
 
   (* FieldDataOps._binary_op, lines 3566-3580 *)
   Definition binary_op (h:heap) (first second:value arr) (f:npop) : res (heap * list (value arr)) :=
@@ -491,8 +501,8 @@ Section Wrappers.
     | VField id =>
         match nth_error h id with
         | Some fo =>
-            do d <- np_cast (fo_nformat fo) (fo_data fo);
-            Ok (h ++ [mkfield (h5_class (fo_cls fo)) (fo_nformat fo) d], VField (length h))
+            do d <- np_cast (fo_nformat fo) (field_data fo);
+            Ok (h ++ [mkfield (h5_class (fo_cls fo)) (fo_nformat fo) (Some d)], VField (length h))
         | None => Raise E_Other
         end
     | _ => Raise E_TypeError            (* "The field must be a Field object." *)
@@ -538,7 +548,9 @@ Inductive sym :=
 | SUn (f:npop) (a:sym)           (* operator.invert(a) / np.logical_not(a) *)
 | SProj (i:Z) (a b:sym)          (* np.divmod(a, b)[i] *)
 | SItem (a:sym)                  (* a.item() *)
-| SCast (nf:sym) (a:sym).        (* a stored into an HDF5 dataset of dtype dtype_to_str(nf.dtype) *)
+| SCast (nf:sym) (a:sym)         (* a stored into an HDF5 dataset of dtype dtype_to_str(nf.dtype) *)
+| SEmptyOf (i:Z)                 (* np.zeros(0, dtype = the declared dtype of field operand i) *)
+| SEmptyLike (a:sym).            (* np.zeros(0, dtype = a.dtype) *)
 
 Inductive symnf := NfGiven (code:Z) | NfOf (a:sym).   (* a given nformat string / dtype_to_str(a.dtype) *)
 
@@ -548,6 +560,9 @@ Definition sym_cast (nf:symnf) (a:sym) : res sym :=
   | NfGiven _ => Ok a                     (* operand fields are never stored again *)
   end.
 
+Definition sym_empty (nf:symnf) : sym :=
+  match nf with NfGiven i => SEmptyOf i | NfOf a => SEmptyLike a end.
+
 Definition sym_run_binop (T:code_tables) :=
   run_binop sym symnf
     (fun f a b => Ok (SBin f a b))
@@ -555,7 +570,7 @@ Definition sym_run_binop (T:code_tables) :=
     (fun f a => Ok (SUn f a))
     (fun a => SItem a)
     (fun a => Ok (NfOf a))
-    sym_cast T.
+    sym_cast sym_empty T.
 
 Definition sym_run_unop (T:code_tables) :=
   run_unop sym symnf
@@ -564,4 +579,4 @@ Definition sym_run_unop (T:code_tables) :=
     (fun f a => Ok (SUn f a))
     (fun a => SItem a)
     (fun a => Ok (NfOf a))
-    sym_cast T.
+    sym_cast sym_empty T.
